@@ -61,7 +61,9 @@ def enum_carriers(ctx):
             if not ctx.mine(idx):
                 continue
             rng = ctx.rng("car", code, df)
-            yield {"code": code, "df": df, "ctx": [[rng.getrandbits(14), rng.getrandbits(56), rng.getrandbits(24), rng.choice("ULM")] for _ in range(k)]}
+            rdf = ctx.rng("car-fixed", df)  # one context shared by all codes of a format: consecutive frames differ in the altitude field (and parity) only
+            yield {"code": code, "df": df, "ctx": [[rng.getrandbits(14), rng.getrandbits(56), rng.getrandbits(24), rng.choice("ULM")] for _ in range(k)] +
+                   [[rdf.getrandbits(14), rdf.getrandbits(56), rdf.getrandbits(24), "U"]]}
 
 
 def chk_carriers(case, note):
@@ -103,7 +105,9 @@ def enum_adsb12(ctx):
                 continue
             rng = ctx.rng("adsb", field, tc)
             k = 3 if ctx.tier == "quick" else 30
-            yield {"field": field, "tc": tc, "ctx": [[rng.getrandbits(3), rng.getrandbits(36), rng.getrandbits(24), rng.choice([17, 18]), rng.choice("ULM"), rng.getrandbits(3)] for _ in range(k)]}
+            rtc = ctx.rng("adsb-fixed", tc)
+            yield {"field": field, "tc": tc, "ctx": [[rng.getrandbits(3), rng.getrandbits(36), rng.getrandbits(24), rng.choice([17, 18]), rng.choice("ULM"), rng.getrandbits(3)] for _ in range(k)] +
+                   [[rtc.getrandbits(3), rtc.getrandbits(36), rtc.getrandbits(24), 17, "U", 5]]}
 
 
 def chk_adsb12(case, note):
